@@ -106,7 +106,10 @@ class Obs:
         self.OE = {k: [] for k in range(ntasks)}
         self.G = {}
         self.GG = {}
+        self.G1 = {}                               # Get1 (own goroutine, started right after Send returned): dict(t,v,idx)
+        self.ER = {}                               # Err() right after the first Get2 returned: dict(t,e,idx)
         self.hang = []
+        self.hang1 = []
         self.PC = []                               # parent-context cancellations: dict(t,k,n,idx), logged before cancel() is called
         self.end = None
         self.runs = []                             # (idx, t, run) samples of the running counter
@@ -129,8 +132,14 @@ class Obs:
                 self.G[int(f[1])] = dict(t=int(f[2]), v=f[3], e=f[4], idx=idx)
             elif kind == "GG":
                 self.GG[int(f[1])] = dict(t=int(f[2]), v=f[3], e=f[4], idx=idx)
+            elif kind == "G1":
+                self.G1[int(f[1])] = dict(t=int(f[2]), v=f[3], idx=idx)
+            elif kind == "ER":
+                self.ER[int(f[1])] = dict(t=int(f[2]), e=f[3], idx=idx)
             elif kind == "HANG":
                 self.hang.append(int(f[1]))
+            elif kind == "HANG1":
+                self.hang1.append(int(f[1]))
             elif kind == "PC":
                 self.PC.append(dict(t=int(f[1]), k=int(f[2]), n=int(f[3]), idx=idx))
             elif kind == "END":
@@ -162,6 +171,9 @@ def structural_problems(tasks, obs):
         return [("no-log", obs.err or "log has no END record: " + obs.raw[:300])]
     for k in obs.hang:
         out.append(("get2-never-returns", "task %d: Get2 had not returned at the horizon" % k))
+    for k in obs.hang1:
+        if k not in obs.hang:
+            out.append(("get1-never-returns", "task %d: Get1 had not returned at the horizon although Get2 had" % k))
     if obs.end["run"] != 0 or obs.end["hs"] != obs.end["he"]:
         out.append(("handler-still-running", "at the horizon %d handler(s) still running (%d starts, %d ends)" % (obs.end["run"], obs.end["hs"], obs.end["he"])))
     for k, t in enumerate(tasks):
@@ -239,7 +251,14 @@ def log_to_history(tasks, obs, hd_ties):
         if k in obs.G:
             add(obs.G[k]["t"], "G", k, "%d" % k)
         if k in obs.GG:
-            add(obs.GG[k]["t"], "G", k, "%d" % k)
+            add(obs.GG[k]["t"], "G", k + 0.9, "%d" % k)
+        # Get1() is `result, _ = my.Get2()` and Err() after Get2 reads the same field: both are replayed as reads
+        # of the model (event AnGet2: must be ENABLED at their stamp, i.e. the WaitGroup is open) and compared on
+        # their component (models/AntsGetters.v, ants_getters_agree)
+        if k in obs.G1:
+            add(obs.G1[k]["t"], "G", k + 0.3, "%d" % k)
+        if k in obs.ER:
+            add(obs.ER[k]["t"], "G", k + 0.6, "%d" % k)
         if obs.discarded(k):
             continue
         att = obs.attempts(k)
@@ -308,10 +327,11 @@ def impl_projection(tasks, obs, with_pairs=True):
     """what the model must reproduce, computed from the log"""
     res = dict(maxrun=max([r for _, _, r in obs.runs] + [0]), tasks={})
     for k, t in enumerate(tasks):
-        g = []
-        for d in (obs.G.get(k), obs.GG.get(k)):
+        g = []   # reads in the order of the history: Get2, Get1 (value only), Err() (error only), final Get2
+        for sub, d in ((0, obs.G.get(k)), (0.3, obs.G1.get(k)), (0.6, obs.ER.get(k)), (0.9, obs.GG.get(k))):
             if d:
-                g.append("%s/%s@%d" % (d["v"], d["e"], d["t"]))
+                g.append((d["t"], sub, "%s/%s@%d" % (d.get("v", "*"), d.get("e", "*"), d["t"])))
+        g = [x[2] for x in sorted(g)]
         oe = ["%s@%d" % (o["e"], o["t"]) for o in obs.OE[k]]
         if obs.discarded(k):
             res["tasks"][k] = dict(phase="disc", inv=len(obs.HS[k]), dec=0, g=g, oe=oe, rel=[], pk=0, hr=[])
@@ -327,6 +347,15 @@ def impl_projection(tasks, obs, with_pairs=True):
     return res
 
 
+def read_matches(impl, model):
+    """'v/e@t' of the implementation ('*' = component not returned by this entry point) vs the model's read"""
+    iv, ie_t = impl.split("/", 1)
+    mv, me_t = model.split("/", 1)
+    ie, it = ie_t.rsplit("@", 1)
+    me, mt = me_t.rsplit("@", 1)
+    return it == mt and iv in ("*", mv) and ie in ("*", me)
+
+
 def compare_one(want, got, with_pairs=True):
     """impl projection vs one model OK result: None or a note"""
     if want["maxrun"] != got["maxrun"]:
@@ -336,6 +365,10 @@ def compare_one(want, got, with_pairs=True):
         if m is None:
             return "task %d missing in the model" % k
         for key in ("phase", "inv", "dec", "g", "oe", "rel", "pk"):
+            if key == "g":
+                if len(w["g"]) == len(m["g"]) and all(read_matches(a, b) for a, b in zip(w["g"], m["g"])):
+                    continue
+                return "task %d Get2/Get1/Err reads: implementation %s, model %s" % (k, w[key], m[key])
             if w[key] != m[key]:
                 return "task %d %s: implementation %s, model %s" % (k, key, w[key], m[key])
         mh = []
@@ -394,6 +427,15 @@ def monitor_c07(tasks, obs):
         g = obs.G[k]
         gg = obs.GG.get(k)
         att = obs.attempts(k)
+        # the other entry points of Task: Get1 unblocks together with Get2 and returns the first component of its
+        # pair; Err() called after Get2 returned reports Get2's error (callback tasks and discarded tasks alike)
+        g1, er = obs.G1.get(k), obs.ER.get(k)
+        if g1 is not None and g1["t"] != g["t"]:
+            out.append(("get1-unblock", "task %d: Get1 returned at %d but Get2 unblocked at %d (Get1 must wait for the task exactly as Get2 does)" % (k, g1["t"], g["t"])))
+        if g1 is not None and g1["v"] != g["v"]:
+            out.append(("get1-value", "task %d: Get1 returned %s (at %d) but Get2 returned (%s,%s) (at %d)" % (k, g1["v"], g1["t"], g["v"], g["e"], g["t"])))
+        if er is not None and er["e"] != g["e"]:
+            out.append(("err-after-get2", "task %d: Err() called after Get2 returned gave %s, Get2 had returned (%s,%s)" % (k, er["e"], g["v"], g["e"])))
         if obs.discarded(k):
             if att:
                 out.append(("discard-handler-ran", "task %d was rejected as busy but its handler ran %d time(s)" % (k, len(att))))
